@@ -2,16 +2,27 @@
 C05 — parsing depends on instruction content only, not on layout, comments or case.
 
 Metamorphic pairs: a generated valid file in canonical layout (`a`) and the same instructions after ONE kind of
-layout transformation (`b`): continuation wraps at token boundaries, blanks, '!' comments (with and without '='
-inside), blank lines, indented comment lines, letter case of keywords / elements / atom names / residue classes.
+layout transformation (`b`): continuation wraps at token boundaries (1..k, tight, blanks behind the marker, continuation
+lines that carry only the marker), blanks, '!' comments (with and without '=' inside) on any physical line of an
+instruction that runs over one, two or more lines, blank lines, indented comment lines, letter case of keywords (all,
+some, those from HKLF on, the words of a DSR command) / elements / atom names / residue classes, and combinations
+(continued + other case + comment). The files contain every keyword of the dispatch chain, DSR commands (REM lines that
+are instructions), FRAG..FEND, RESI/PART/AFIX groups closed explicitly or left open up to HKLF, and what SHELXL writes
+behind HKLF (residual REM lines, END, suggested WGHT, Q-peaks).
+
+Order of exploration: (1) the witnesses of the Lean file, (2) a small systematic part - every instruction of the first
+files, one by one: keyword in another case x continued over up to three lines x a comment containing '=' on the first /
+a middle / the last physical line, (3) every kind at random on every file. A changed digest of a mirrored source file
+(ctx.escalated) roughly doubles (2) and (3) and adds every single-wrap position of a few files; quick stays in its time.
 
 Streams (DESIGN 3.2):
   pair    read_string(a) vs read_string(b), field by field (names and classes case-insensitively)   [property]
   lines   the implementation's logical lines (start index, tokens of Command/Restraint objects) of a and b
           vs model `modelLogicalLines` (correspondence) and vs spec `norm` (theorem glue_tokens; property)
   class   Residue.residue_number for a class suffix vs model `classNumbers keyNew` / spec `specClassNumbers`
-The spec itself is also checked on every pair: norm a = norm b (theorem layout_preserves_norm); a generated pair
-for which that fails means the generator left the domain -> harness error, never a violation.
+The spec itself is also checked on every pair: norm a = norm b (theorem layout_preserves_norm), for the kinds that change
+the letter case of more than the keyword: equal up to letter case (theorem case_invariance); a generated pair for which
+that fails means the generator left the domain -> harness error, never a violation.
 """
 import json
 
